@@ -80,13 +80,25 @@ def float_part(L, rng, n):
         avg = fsr.tmAvgMidpoint(a, b).gTAA().reshape(6)
         L.log("avg midpoint: mean position", reg, float(np.abs(avg[:3] - (A[:3, 3] + B[:3, 3]) / 2).max()) / 10, 1e-8, case)
         # ---- lookAt
-        if np.linalg.norm(np.cross([0, 0, 1.0], B[:3, 3] - A[:3, 3])) > 1e-3:
-            la = fsr.lookAt(a, b).gTM()
-            z = (B[:3, 3] - A[:3, 3]) / np.linalg.norm(B[:3, 3] - A[:3, 3])
-            L.log("lookAt keeps the position", reg, float(np.abs(la[:3, 3] - A[:3, 3]).max()) / 10, 1e-8, case)
-            L.log("lookAt is a proper rotation", reg, max(float(np.abs(la[:3, :3].T @ la[:3, :3] - np.eye(3)).max()),
-                                                         abs(np.linalg.det(la[:3, :3]) - 1)), 1e-8, case)
-            L.log("lookAt points local z at the target", reg, float(np.abs(la[:3, 2] - z).max()), 1e-8, case)
+        # targets in general position, straight above / below the eye (the world-up construction degenerates there)
+        # and a hair off the vertical
+        tgt = [("float", B)]
+        for kind, dxy in (("float|vertical", 0.0), ("float|near-vertical", rng.choice([1e-9, 1e-6, 1e-4]))):
+            V = B.copy()
+            V[:2, 3] = A[:2, 3] + dxy
+            V[2, 3] = A[2, 3] + rng.choice([-1, 1]) * rng.choice([1e-3, 0.1, 1.0, rng.uniform(0.5, 10)])
+            tgt.append((kind, V))
+        for lreg, Bt in tgt:
+            dvec = Bt[:3, 3] - A[:3, 3]
+            if np.linalg.norm(dvec) < 1e-4:
+                continue
+            lcase = {"A": A.tolist(), "B": Bt.tolist()}
+            la = fsr.lookAt(a, tm(Bt.copy())).gTM()
+            z = dvec / np.linalg.norm(dvec)
+            L.log("lookAt keeps the position", lreg, float(np.abs(la[:3, 3] - A[:3, 3]).max()) / 10, 1e-8, lcase)
+            L.log("lookAt is a proper rotation", lreg, max(float(np.abs(la[:3, :3].T @ la[:3, :3] - np.eye(3)).max()),
+                                                          abs(np.linalg.det(la[:3, :3]) - 1)), 1e-8, lcase)
+            L.log("lookAt points local z at the target", lreg, float(np.abs(la[:3, 2] - z).max()), 1e-8, lcase)
         # ---- rotationFromVector (optimiser): local z of the result points from A to B
         if np.linalg.norm(B[:3, 3] - A[:3, 3]) > 0.5 and rng.random() < 0.25:
             start = tm(list(A[:3, 3]) + [0.1, 0.1, 0.0])
@@ -185,6 +197,9 @@ def float_part(L, rng, n):
                 "IKPath evenly spaced from start to goal", "exp(twistToGoal) * start = goal", "chainJacobian = analytic space Jacobian",
                 "numericalJacobian = analytic Jacobian", "rotationFromVector points local z along the vector"):
         L.require(law, reg, max(3, n // 20))
+    for law in ("lookAt keeps the position", "lookAt is a proper rotation", "lookAt points local z at the target"):
+        for r2 in ("float|vertical", "float|near-vertical"):
+            L.require(law, r2, max(3, n // 20))
 
 
 def cong(out, inp):
